@@ -15,6 +15,7 @@ package filesystem
 
 // artifactFileName: the config path with everything from its last dot on replaced by ".pem" (C10, C18)
 //@ func (fsMetadata).artifactFileName returns (r)
+//@   bounded TestVerifBoundedArtifactName
 //@   props C10 C18
 //@   requires contains(f.configFileName, ".")
 //@   ensures @C10,C18 r == artNameOf(f.configFileName)
